@@ -46,7 +46,8 @@ LRootView(sh, fi) == LV(0, LFromExt([k \in 1..Len(sh) |-> <<fi[k], sh[k]>>]))
 LIndex(v, i) == LV(v.base + (i * v.lay[1].s - v.lay[1].o), Tail(v.lay))
 
 (* sliced_aux_ : array_ref.hpp:1258-1277 (D>1) and :2922-2932 (D=1).         *)
-(* The one-dimensional specialisation omits "- offset" (line 2929).         *)
+(* The one-dimensional specialisation omitted "- offset" at the pinned      *)
+(* commit (oneDimQuirk = TRUE models that; fixed in /repo by be90040).      *)
 LSliced(v, a, b, oneDimQuirk) ==
   LET d == v.lay[1]
       nb == IF Len(v.lay) = 1 /\ oneDimQuirk
@@ -80,13 +81,17 @@ LParen(v, args, q) ==
        ELSE LET w == IF h[1] = 1 THEN LSliced(v, h[2], h[3], q) ELSE v
             IN LUnrotated(LParen(LRotated(w), Tail(args), q))
 
-(* diagonal_aux_ : array_ref.hpp:1378-1385 *)
+(* diagonal_aux_ : array_ref.hpp (after fix dbd79f6: the square is taken from the first  *)
+(* valid indices and the resulting layout is zero-based)                                *)
 LDiagonal(v, q) ==
   LET sq == Min2(LSize(v.lay), LSizeD(v.lay[2]))
-      p  == LParen(v, <<<<1, 0, sq>>, <<1, 0, sq>>>>, q)
+      f0 == LFirstD(v.lay[1])
+      f1 == LFirstD(v.lay[2])
+      p  == LParen(v, <<<<1, f0, f0 + sq>>, <<1, f1, f1 + sq>>>>, q)
       sub == Tail(p.lay)
   IN LV(v.base, [sub EXCEPT ![1].n = sub[1].n + p.lay[1].n,
-                            ![1].s = sub[1].s + p.lay[1].s])
+                            ![1].s = sub[1].s + p.lay[1].s,
+                            ![1].o = 0])
 
 (* partitioned_aux_ : array_ref.hpp:1423-1431 *)
 LPartitioned(v, n) ==
